@@ -23,7 +23,7 @@ ASSUMPTIONS = [
 REQUIRED = ['one_shot_fired', 'persistent_fired_3plus', 'interval_zero', 'equal_expiries', 'datetime_deadline', 'reset_live_timer',
             'unregister_live_timer', 'unregister_persistent_after_firing', 'idle_wait_bounded_by_timer', 'two_timers_alive', 'sleep_task_present',
             'unbounded_idle_without_timers', 'double_event_instances', 'virtual_time_calls', 'source_fire_seen',
-            'datetime_deadline_in_non_utc_zone']
+            'datetime_deadline_in_non_utc_zone', 'handler_consumed_time']
 REQUIRED_OBLIGATIONS = ['NOT_EARLY', 'ONE_SHOT_ONCE', 'ONE_SHOT_DETACHED', 'PERSISTENT_SPACING', 'NO_FIRE_AFTER_UNREGISTER', 'RESET_RESTARTS',
                         'NO_OVERSLEEP', 'PROMPT']
 WORKER_TIMEOUT = {'quick': 300, 'thorough': 1500}
@@ -178,6 +178,10 @@ def _run_case(case, clock):
                 t['obj'].unregister()
                 t['alive'] = False
                 t['unreg_at'] = len(log)
+        elif kind == 'busy':
+            # a long-running handler: virtual time passes inside it, the loop reaches its timers late
+            marks.add('handler_consumed_time')
+            clock.now += a[2]
         elif kind == 'fire':
             app.fire(tick())
         elif kind == 'sleeper':
@@ -307,6 +311,8 @@ def corpus():
                                                              [1.0, N, 4, 0.1, False], [2.0, N, 5, 1, True], [3.0, U, 5]]})
     cs.append({'name': 'sleepers', 'end': 5.0, 'actions': [[0, 'sleeper', 0.35], [0, N, 1, 1.0, True], [0.2, N, 2, 0.1, False], [1.5, 'sleeper', 1.2],
                                                            [1.6, 'fire'], [2.0, N, 3, 0.25, False], [3.5, U, 1]]})
+    cs.append({'name': 'late-loop', 'end': 16.0, 'actions': [[0, N, 1, 1.0, True], [0, N, 2, 0.25, True], [2.5, 'busy', 1.6], [5.0, 'busy', 3.25],
+                                                            [0, N, 3, 2.5, False], [9.0, 'busy', 0.3], [9.0, N, 4, 0.1, False], [12.0, U, 2]]})
     cs.append({'name': 'idle-gap', 'end': 9.0, 'actions': [[0, N, 1, 0.1, False], [4.0, N, 2, 0.25, False], [6.0, 'fire'], [7.0, N, 3, 1, False]]})
     return cs
 
@@ -335,6 +341,8 @@ def gen_case(rng):
             acts.append([round(at + rng.uniform(0, min(end - at, 3.0)), 2), 'unreg', tid])
     for _ in range(rng.randint(0, 3)):
         acts.append([round(rng.uniform(0, end), 2), rng.choice(['fire', 'fire', 'sleeper'])] + ([round(rng.uniform(0.05, 1.5), 2)] if False else []))
+    for _ in range(rng.randint(0, 2)):
+        acts.append([round(rng.uniform(0, end), 2), 'busy', rng.choice([0.05, 0.3, 1.6, 3.25])])
     for a in acts:
         if a[1] == 'sleeper' and len(a) == 2:
             a.append(round(rng.uniform(0.05, 1.5), 2))
